@@ -300,7 +300,7 @@ func registerIntrinsics(e *Engine) {
 		p := a[0].(PtrV)
 		f := e.load(st, PtrV{Obj: p.Obj, Path: []PathEl{{I: 2}}})
 		if f == Value(e.TT.True) {
-			e.setResult(st, c, TupleV{E: []Value{e.TT.Int(0), e.newError(st, "file already closed")}})
+			e.setResult(st, c, TupleV{E: []Value{e.TT.Int(0), e.closedFileError(st)}})
 			return nil
 		}
 		whence := a[2].(*Term)
@@ -312,10 +312,11 @@ func registerIntrinsics(e *Engine) {
 		return nil
 	}
 	var fileRead Intrinsic
+	_ = fileRead
 	fileRead = func(e *Engine, st *State, c ssa.CallInstruction, a []Value) []*State {
 		p := a[0].(PtrV)
 		if e.load(st, PtrV{Obj: p.Obj, Path: []PathEl{{I: 2}}}) == Value(e.TT.True) {
-			e.setResult(st, c, TupleV{E: []Value{e.TT.Int(0), e.newError(st, "file already closed")}})
+			e.setResult(st, c, TupleV{E: []Value{e.TT.Int(0), e.closedFileError(st)}})
 			return nil
 		}
 		content := e.load(st, PtrV{Obj: p.Obj, Path: []PathEl{{I: 0}}}).(StrV)
@@ -451,6 +452,12 @@ func registerIntrinsics(e *Engine) {
 	}
 	I["fmt.Errorf"] = func(e *Engine, st *State, c ssa.CallInstruction, a []Value) []*State {
 		e.setResult(st, c, e.newError(st, "fmt.Errorf:"+describe(a[0])))
+		return nil
+	}
+	// errors.Is on the error values of the model: identity with the target (fmt.Errorf is opaque in
+	// the engine, so wrapped chains do not exist; an opaque error matches nothing but itself)
+	I["errors.Is"] = func(e *Engine, st *State, c ssa.CallInstruction, a []Value) []*State {
+		e.setResult(st, c, e.valueEq(a[0], a[1]))
 		return nil
 	}
 	I["errors.New"] = func(e *Engine, st *State, c ssa.CallInstruction, a []Value) []*State {
@@ -991,4 +998,14 @@ func (e *Engine) cutOutside(st *State, why string) {
 	e.addEvent(Event{Kind: "outside", Label: why})
 	e.Outside[why]++
 	st.done = true
+}
+
+// closedFileError is what the file model returns for an operation on a closed file: the value of
+// os.ErrClosed when that global is registered (so that errors.Is(err, os.ErrClosed) holds, as it
+// does for the *PathError of the real library), otherwise an opaque error.
+func (e *Engine) closedFileError(st *State) Value {
+	if _, ok := e.NativeGlob["os.ErrClosed"]; ok {
+		return e.load(st, e.globalPtrByName(st, "os", "ErrClosed"))
+	}
+	return e.newError(st, "file already closed")
 }
